@@ -128,24 +128,57 @@ FLOATS = [0, 3, 2, 5]
 STRS = [0, 1, 2]
 
 
+MAXD = 1   # operands of builtin calls (isinstance, dict display items) hold containers nested at most this deep
+
+
 class Gen:
   """Generates loop-free programs that run to completion under CPython: names are read only when assigned on
-  every path, dict keys / set elements are hashable literals or names known to hold hashable values."""
+  every path, dict keys / set elements are hashable literals or names known to hold hashable values.
+
+  Restrictions that keep the programs inside the fragment where the Coq model is exact (see Vm/Model.v):
+   * no two Python-equal literal keys/elements in one dict/set display (CPython and pytype's constant folding
+     keep one entry per equal literal, the model keeps all of them);
+   * the operand of isinstance and the items of a dict display are containers nested at most MAXD deep
+     (builtin calls fall back to Any arguments when the deep binding product of an argument exceeds 1024)."""
 
   def __init__(self, r, n_stmts, features=None):
     self.r = r
     self.budget = n_stmts
-    self.funcs = []          # (fid, nparams)
+    self.funcs = {}          # fid -> dict(np, extra, shallow, globs)
     self.nfunc = 0
     self.features = features or {}
     self.hashable = set()    # module-level names that hold hashable values on every path
+    self.cdepth = {}         # name -> upper bound of the container nesting depth of its values (monotone)
+    self.in_func = None
+    self.f_shallow = False
 
-  def lit(self, hashable=False):
+  # -- static bound on container nesting
+  def edepth(self, e):
+    t = e[0]
+    if t == "name":
+      return self.cdepth.get(e[1], 0)
+    if t in ("list", "tuple", "set"):
+      return 1 + max([self.edepth(x) for x in e[1]] + [0])
+    if t == "dict":
+      return 1 + max([max(self.edepth(k), self.edepth(v)) for k, v in e[1]] + [0])
+    if t in ("and", "or"):
+      return max(self.edepth(e[1]), self.edepth(e[2]))
+    if t == "ifexp":
+      return max(self.edepth(e[2]), self.edepth(e[3]))
+    if t == "call":
+      f = self.funcs[e[1]]
+      base = max([self.edepth(x) for x in e[2]] + [0])
+      if f["globs"]:
+        base = max([base] + [v for k, v in self.cdepth.items() if k < 20])
+      return base + f["extra"]
+    return 0
+
+  def lit(self):
     r = self.r
     k = r.random()
     if k < 0.30:
       return ("int", r.choice(INTS))
-    if k < 0.45:
+    if k < 0.47:
       return ("float", r.choice(FLOATS))
     if k < 0.60:
       return ("str", r.choice(STRS))
@@ -155,14 +188,18 @@ class Gen:
       return ("bool", r.random() < 0.5)
     return ("none",)
 
-  def expr(self, names, depth, hashable=False, in_func=None):
+  def shallow(self, e):
+    """e if it is shallow enough to be the argument of a builtin call, else a literal"""
+    return e if self.edepth(e) <= MAXD else self.lit()
+
+  def expr(self, names, depth, hashable=False):
     r = self.r
     k = r.random()
     if depth <= 0 or k < 0.22:
       if names and r.random() < 0.6 and not hashable:
         return ("name", r.choice(names))
       if hashable:
-        hs = [n for n in names if n in self.hashable] if in_func is None else []
+        hs = [n for n in names if n in self.hashable] if self.in_func is None else []
         if hs and r.random() < 0.4:
           return ("name", r.choice(hs))
       return self.lit()
@@ -171,20 +208,22 @@ class Gen:
     if k < 0.40 and names and not hashable:
       return ("name", r.choice(names))
     if k < 0.47 and not hashable:
-      return ("list", [self.expr(names, depth - 1, False, in_func) for _ in range(r.randint(0, 3))])
+      return ("list", [self.expr(names, depth - 1) for _ in range(r.randint(0, 3))])
     if k < 0.55:
-      return ("tuple", [self.expr(names, depth - 1, hashable, in_func) for _ in range(r.randint(0, 3))])
+      return ("tuple", [self.expr(names, depth - 1, hashable) for _ in range(r.randint(0, 3))])
     if k < 0.61 and not hashable:
-      items = [(self.expr(names, depth - 1, True, in_func), self.expr(names, depth - 1, False, in_func))
+      items = [(self.shallow(self.expr(names, depth - 1, True)), self.shallow(self.expr(names, depth - 1)))
                for _ in range(r.randint(0, 2))]
       # pytype's constant folding keeps one entry per equal literal key (a Python dict): avoid equal literal keys
       if len(items) == 2 and lit_key(items[0][0]) is not None and lit_key(items[0][0]) == lit_key(items[1][0]):
         items = items[:1]
+      if self.in_func is not None and items:
+        self.f_shallow = True
       return ("dict", items)
     if k < 0.65 and not hashable:
       elts = []
       for _ in range(r.randint(1, 3)):
-        x = self.expr(names, depth - 1, True, in_func)
+        x = self.expr(names, depth - 1, True)
         # CPython / pytype fold all-constant set displays and drop equal elements: avoid equal literal elements
         if lit_key(x) is None or all(lit_key(y) != lit_key(x) for y in elts):
           elts.append(x)
@@ -192,60 +231,70 @@ class Gen:
     if hashable:
       return self.lit()
     if k < 0.80:
-      return self.cond(names, depth - 1, in_func, value=True)
+      return self.cond(names, depth - 1, value=True)
     if k < 0.90:
-      return ("ifexp", self.cond(names, depth - 1, in_func), self.expr(names, depth - 1, False, in_func),
-              self.expr(names, depth - 1, False, in_func))
-    return self.call(names, depth - 1, in_func) or self.lit()
+      return ("ifexp", self.cond(names, depth - 1), self.expr(names, depth - 1), self.expr(names, depth - 1))
+    return self.call(names, depth - 1) or self.lit()
 
-  def call(self, names, depth, in_func):
-    fs = [f for f in self.funcs if in_func is None or f[0] < in_func]
+  def call(self, names, depth):
+    fs = [f for f in sorted(self.funcs) if self.in_func is None or f < self.in_func]
     if not fs:
       return None
     f = self.r.choice(fs)
-    return ("call", f[0], [self.expr(names, depth, False, in_func) for _ in range(f[1])])
+    info = self.funcs[f]
+    args = [self.expr(names, depth) for _ in range(info["np"])]
+    if info["shallow"]:
+      args = [self.shallow(a) for a in args]
+      if info["globs"] and any(v > MAXD for k, v in self.cdepth.items() if k < 20):
+        return None
+      if self.in_func is not None:
+        self.f_shallow = True
+    return ("call", f, args)
 
-  def operand(self, names, depth, in_func):
-    """an operand in a test position: mostly a name (never a bare literal unless allowed)"""
+  def operand(self, names, depth, shallow=False):
+    """an operand in a test position: mostly a name, never a bare literal unless the feature is on"""
     r = self.r
+    if shallow:
+      names = [n for n in names if self.cdepth.get(n, 0) <= MAXD]
     if names and r.random() < 0.75:
       return ("name", r.choice(names))
     if r.random() < self.features.get("lit_in_test", 0.0):
       return self.lit()
-    c = self.call(names, depth, in_func) if r.random() < 0.5 else None
-    if c:
+    c = self.call(names, depth) if r.random() < 0.5 else None
+    if c and (not shallow or self.edepth(c) <= MAXD):
       return c
     if names:
       return ("name", r.choice(names))
     return ("isinst", self.lit(), r.randrange(len(CLASSES)))
 
-  def cond(self, names, depth, in_func, value=False):
+  def cond(self, names, depth, value=False):
     r = self.r
     k = r.random()
     if depth <= 0 or k < 0.25:
-      o = self.operand(names, depth, in_func)
+      o = self.operand(names, depth)
       if value and o[0] == "name":
-        k = r.random()   # a bare name is not an interesting value expression: wrap it
+        k = 0.25 + 0.75 * r.random()   # a bare name is not an interesting value expression: wrap it
       else:
         return o
     if k < 0.40:
-      return ("not", self.cond(names, depth - 1, in_func))
+      return ("not", self.cond(names, depth - 1))
     if k < 0.52:
-      return ("isnone", self.operand(names, depth, in_func))
+      return ("isnone", self.operand(names, depth))
     if k < 0.62:
-      return ("isnotnone", self.operand(names, depth, in_func))
+      return ("isnotnone", self.operand(names, depth))
     if k < 0.77:
-      return ("isinst", self.operand(names, depth, in_func), r.randrange(len(CLASSES)))
+      if self.in_func is not None:
+        self.f_shallow = True
+      return ("isinst", self.operand(names, depth, shallow=True), r.randrange(len(CLASSES)))
     if k < 0.87:
-      return ("and", self.cond(names, depth - 1, in_func), self.cond(names, depth - 1, in_func) if r.random() < 0.6
-              else self.expr(names, depth - 1, False, in_func))
+      return ("and", self.cond(names, depth - 1), self.cond(names, depth - 1) if r.random() < 0.6
+              else self.expr(names, depth - 1))
     if k < 0.96:
-      return ("or", self.cond(names, depth - 1, in_func), self.cond(names, depth - 1, in_func) if r.random() < 0.6
-              else self.expr(names, depth - 1, False, in_func))
-    return ("ifexp", self.cond(names, depth - 1, in_func), self.cond(names, depth - 1, in_func),
-            self.cond(names, depth - 1, in_func))
+      return ("or", self.cond(names, depth - 1), self.cond(names, depth - 1) if r.random() < 0.6
+              else self.expr(names, depth - 1))
+    return ("ifexp", self.cond(names, depth - 1), self.cond(names, depth - 1), self.cond(names, depth - 1))
 
-  def block(self, defined, pool, depth, in_func, n):
+  def block(self, defined, pool, depth, n):
     """returns (stmts, defined_after, returned_on_all_paths)"""
     out = []
     defined = set(defined)
@@ -258,32 +307,35 @@ class Gen:
       names = sorted(defined)
       if k < 0.58 or depth >= 3:
         x = r.choice(pool)
-        e = self.expr(names, r.randint(0, 3), False, in_func)
+        e = self.expr(names, r.randint(0, 3))
         out.append(("assign", x, e))
         defined.add(x)
-        if in_func is None:
+        self.cdepth[x] = max(self.cdepth.get(x, 0), self.edepth(e))
+        if self.in_func is None:
           if self.is_hashable_expr(e):
             self.hashable.add(x)
           else:
             self.hashable.discard(x)
       elif k < 0.62:
         out.append(("pass",))
-      elif k < 0.70 and in_func is not None:
-        out.append(("return", self.expr(names, r.randint(0, 2), False, in_func)))
+      elif k < 0.70 and self.in_func is not None:
+        e = self.expr(names, r.randint(0, 2))
+        self.ret_depth = max(self.ret_depth, self.edepth(e))
+        out.append(("return", e))
         return out, defined, True
       else:
-        c = self.cond(names, r.randint(0, 2), in_func)
+        c = self.cond(names, r.randint(0, 2))
         hsave = set(self.hashable)
-        b1, d1, r1 = self.block(defined, pool, depth + 1, in_func, r.randint(1, 3))
+        b1, d1, r1 = self.block(defined, pool, depth + 1, r.randint(1, 3))
         h1 = self.hashable
         self.hashable = set(hsave)
         if r.random() < 0.7:
           if r.random() < 0.3:
-            c2 = self.cond(names, r.randint(0, 2), in_func)
-            b2a, d2a, r2a = self.block(defined, pool, depth + 2, in_func, r.randint(1, 2))
+            c2 = self.cond(names, r.randint(0, 2))
+            b2a, d2a, r2a = self.block(defined, pool, depth + 2, r.randint(1, 2))
             h2a = self.hashable
             self.hashable = set(hsave)
-            b2b, d2b, r2b = (self.block(defined, pool, depth + 2, in_func, r.randint(1, 2)) if r.random() < 0.7
+            b2b, d2b, r2b = (self.block(defined, pool, depth + 2, r.randint(1, 2)) if r.random() < 0.7
                              else ([], set(defined), False))
             h2b = self.hashable
             inner = ("if", c2, b2a, b2b, "elif")
@@ -294,7 +346,7 @@ class Gen:
             else: d2, r2 = d2a & d2b, False
             h2 = h2a & h2b
           else:
-            b2, d2, r2 = self.block(defined, pool, depth + 1, in_func, r.randint(1, 3))
+            b2, d2, r2 = self.block(defined, pool, depth + 1, r.randint(1, 3))
             h2 = self.hashable
         else:
           b2, d2, r2 = [], set(defined), False
@@ -342,15 +394,21 @@ class Gen:
         self.budget = min(self.budget, r.randint(1, 8))
         inner0 = self.budget
         # globals readable in a function: those defined on every path at definition time
-        body, _, _ = self.block(set(params) | (defined if r.random() < self.features.get("p_glob", 0.3) else set()),
-                                lpool, 1, fid, 8)
+        globs = r.random() < self.features.get("p_glob", 0.3) and bool(defined)
+        self.in_func, self.f_shallow, self.ret_depth = fid, False, 0
+        gsave = dict(self.cdepth)
+        for q in lpool:
+          self.cdepth[q] = 0
+        body, _, _ = self.block(set(params) | (defined if globs else set()), lpool, 1, 8)
+        self.cdepth = gsave
+        self.in_func = None
         self.budget = save - (inner0 - self.budget)
         if not body:
           body = [("pass",)]
         prog.append(("def", fid, params, body))
-        self.funcs.append((fid, np_))
+        self.funcs[fid] = {"np": np_, "extra": self.ret_depth, "shallow": self.f_shallow, "globs": globs}
       else:
-        ss, defined, _ = self.block(defined, gpool, 0, None, 1)
+        ss, defined, _ = self.block(defined, gpool, 0, 1)
         prog.extend(ss)
     return prog
 
